@@ -426,32 +426,40 @@ def rule_r9(ctx):
     for f in m.all_funcs:
         if isinstance(f.node, ast.Lambda):
             continue
-        # writer keys: <table>[<T>.name] = {...}
-        keys = [t for a in own_nodes(f.node) if isinstance(a, ast.Assign) and isinstance(a.value, ast.Dict) for t in a.targets
-                if isinstance(t, ast.Subscript) and isinstance(t.slice, ast.Attribute) and t.slice.attr == "name" and isinstance(t.slice.value, ast.Name)]
+        # writer keys: <table>[<X>.name] = {...}, or <table>[<k>] = {...} with k bound once to <X>.name
+        binds: dict[str, list] = {}
+        for a_ in own_nodes(f.node):
+            if isinstance(a_, ast.Assign) and len(a_.targets) == 1 and isinstance(a_.targets[0], ast.Name):
+                binds.setdefault(a_.targets[0].id, []).append(a_.value)
+        keys = []
+        for a_ in own_nodes(f.node):
+            if not (isinstance(a_, ast.Assign) and isinstance(a_.value, ast.Dict)):
+                continue
+            for t in a_.targets:
+                if not isinstance(t, ast.Subscript):
+                    continue
+                k = t.slice
+                if isinstance(k, ast.Name) and len(binds.get(k.id, [])) == 1:
+                    k = binds[k.id][0]
+                if isinstance(k, ast.Attribute) and k.attr == "name":
+                    keys.append((t, k))
         if not keys:
             continue
-        # tensors bound from a value: T = V.const_value (the collection loop) and alignments T.name = V.name
-        bound = {a.targets[0].id: norm(a.value.value) for a in own_nodes(f.node) if isinstance(a, ast.Assign) and isinstance(a.targets[0], ast.Name)
-                 and isinstance(a.value, ast.Attribute) and a.value.attr == "const_value"}
-        aligned = {a.targets[0].value.id for a in own_nodes(f.node) if isinstance(a, ast.Assign) and isinstance(a.targets[0], ast.Attribute)
-                   and a.targets[0].attr == "name" and isinstance(a.targets[0].value, ast.Name) and isinstance(a.value, ast.Attribute) and a.value.attr == "name"
-                   and bound.get(a.targets[0].value.id) == norm(a.value.value)}
-        for t in keys:
+        for t, k in keys:
             n += 1
-            kv = t.slice.value.id
-            # the key variable is a loop variable over a collection of tensors filled from the bound tensors, or a value itself
+            # the entry is named after the initializer (a Value), never after the tensor object: one tensor can back several
+            # initializers and has a single name of its own, so entries keyed by it collapse into one
             try:
-                is_value = any(k.name == "Value" for k in ctx.typer.recv_classes(f, t.slice.value))
+                tys = ctx.typer.type_of(f, k.value)
             except Exception:
-                is_value = False
-            ok = is_value or bool(aligned)
-            ctx.check("R9", f"{f.local}: entries keyed by `{kv}.name` are read back by value name (names aligned)", ok, f, t,
-                      f"the file entry is keyed by `{kv}.name` - the tensor's own name - while the replacement step looks initializers up by the value's name, and "
-                      "no `<tensor>.name = <value>.name` alignment precedes it: an initializer whose tensor carries another name is written under a key that "
-                      "nothing maps back (the save fails after the file was written)",
-                      how="key expression of the write table vs alignment statements on tensors bound from <value>.const_value",
-                      construct=f"safetensors entries keyed by {kv}.name without alignment")
+                tys = frozenset()
+            is_value = any(x[0] == "cls" and getattr(x[1], "name", "") == "Value" for x in tys)
+            ctx.check("R9", f"{f.local}: entries are keyed by the name of the initializer (`{norm(k)[:40]}`)", is_value, f, t,
+                      f"the file entry is keyed by `{norm(k)[:50]}` - the tensor object's own name - while the replacement step looks initializers up by the value's name: "
+                      "a tensor object that backs two initializers (tied weights) is written under one key, so only one of them comes back external (the other stays inline "
+                      "whatever the threshold), and a tensor that carries another name than its value is written under a key nothing maps back",
+                      how="key expression of the write table (through a local bound once) is `<x>.name` with x typed as a Value",
+                      construct="safetensors entries keyed by the tensor's own name")
     ctx.require(n >= 1, "the safetensors write table (entries keyed by a name) was not found")
 
 
